@@ -347,7 +347,13 @@ func invalidReason(m *Metric, env *Env, format string, flatInputSize int) string
 			}
 		}
 	}
-	if l.TagsPerMetric > 0 && len(tags)+len(env.Enriched) > l.TagsPerMetric {
+	// protobuf and flat count the metric's tags plus the enriched ones (before de-duplication); the line parser limits
+	// the line's own (map de-duplicated) tags, enriched tags are added afterwards by influx.Parse and are not counted
+	nTags := len(tags) + len(env.Enriched)
+	if format == fmtLine {
+		nTags = len(tags)
+	}
+	if l.TagsPerMetric > 0 && nTags > l.TagsPerMetric {
 		return "too-many-tags"
 	}
 	for _, t := range append(append([]Tag(nil), tags...), env.Enriched...) {
